@@ -113,6 +113,7 @@ type parserDoer struct {
 
 	res         chan *model.ParserResponse
 	tsSpl       *timeSeriesAndSamples
+	seenFpKeys  map[uint64]bool
 	size        int
 	payloadType int8
 	profile     *model.ProfileData
@@ -182,6 +183,7 @@ func (p *parserDoer) doParseLogs() {
 	}
 
 	p.tsSpl = newTimeSeriesAndSamples(p.res, meta)
+	p.seenFpKeys = map[uint64]bool{}
 
 	parser.SetOnEntries(p.onEntries)
 	p.tsSpl.reset()
@@ -338,7 +340,8 @@ func (p *parserDoer) onEntries(labels [][]string, timestampsNS []int64,
 	}
 
 	for d := range dates {
-		if maybeAddFp(d, fp, p.ctx.fpCache) {
+		if key, isNew := p.maybeAddFp(d, fp); isNew {
+			p.tsSpl.keys = append(p.tsSpl.keys, key)
 			_labels := encodeLabels(labels)
 			for t, _ := range tps {
 				if !tps[t] {
@@ -507,11 +510,19 @@ func validUTF8Labels(lbls [][]string) [][]string {
 	return lbls
 }
 
-func maybeAddFp(date time.Time, fp uint64, fpCache numbercache.ICache[uint64]) bool {
+// maybeAddFp tells whether a series row has to be emitted for (date, fp): the pair is not in the
+// cache and this request has not emitted it yet. The cache is not set here: a row that is emitted
+// may still fail to be stored, and a cached pair is never emitted again. The returned key is set by
+// the caller of the parser once the row has been stored.
+func (p *parserDoer) maybeAddFp(date time.Time, fp uint64) (uint64, bool) {
 	dateTS := date.Unix()
 	var bs [16]byte
 	copy(bs[0:8], unsafe.Slice((*byte)(unsafe.Pointer(&dateTS)), 16))
 	copy(bs[8:16], unsafe.Slice((*byte)(unsafe.Pointer(&fp)), 16))
 	_fp := city.CH64(bs[:])
-	return !fpCache.CheckAndSet(_fp)
+	if p.seenFpKeys[_fp] || p.ctx.fpCache.Has(_fp) {
+		return _fp, false
+	}
+	p.seenFpKeys[_fp] = true
+	return _fp, true
 }
